@@ -402,6 +402,11 @@ func (f *STFS) OpenFile(name string, flag int, perm os.FileMode) (afero.File, er
 
 	name = cleanName(name)
 
+	// A read-only filesystem can't be opened for writing, creating or truncating
+	if f.readOnly && flag&(os.O_WRONLY|os.O_RDWR|os.O_APPEND|os.O_CREATE|os.O_TRUNC) != 0 {
+		return nil, os.ErrPermission
+	}
+
 	f.ioLock.Lock()
 	defer f.ioLock.Unlock()
 
